@@ -1,17 +1,3 @@
-NOTES = ('All checks: ./check CNN --tier quick|thorough. Each regenerates rocq/Gen/*.v from /repo/src with fail-closed ast translators, '
-         'rebuilds Props/CNN.vo (full .vo), kernel-checks instance obligations over the generated objects, runs the model/implementation '
-         'correspondence (model evaluated by vm_compute inside coqc) and an oracle search on the implementation. '
-         'known_findings.json lists genuine defects that are recorded rather than repaired. See DESIGN.md.')
+NOTES = 'All checks: ./check CNN --tier quick|thorough. Each regenerates rocq/Gen/*.v from /repo/src with fail-closed ast translators, rebuilds Props/CNN.vo (full .vo), kernel-checks instance obligations over the generated objects, runs the model/implementation correspondence (model evaluated by vm_compute inside coqc) and an oracle search on the implementation. known_findings.json lists genuine defects that are recorded rather than repaired. See DESIGN.md.'
+# property id -> reason, for properties that are deliberately not claimed
 NOT_APPLICABLE = {}
-CHECKS = {
- 'C08': dict(
-  technique='Rocq proof (allocator freshness/termination, lifecycle NoDup invariant by induction over histories) + ast site census + vm_compute correspondence',
-  text='Theorems in Props/C08.v: the IDMan scan terminates and returns a positive unused ID keeping the search_pos invariant; for every history of '
-       'create/remove/re-add/gc the IDs of existing objects are pairwise distinct and positive provided IDs are released only by destructors; fixup '
-       'indexes stay distinct and positive. The premises (release sites, ID stores, fixup acceptance test) are regenerated from vmf.py/instancing.py on every '
-       'run and kernel-checked; IDMan, EntityFixup and the entity lifecycle are compared with the model on random operation sequences; histories over all six '
-       'ID kinds are searched on real VMF objects.',
-  note='Trusted: Coq kernel + vm_compute, translate/c08_sites.py, hand models SM/IdMan.v and SM/IdLife.v (tied by differential runs), CPython gc/refcount for '
-       '__del__ timing. Nav-node IDs (nodeid keyvalue) are searched, not modelled; their known duplicate defect is in known_findings.json. '
-       'Maps opened with preserve_ids=True are exempt by definition.'),
-}
